@@ -1385,8 +1385,10 @@ func (up4 *UP4) modifyUP4ForwardingConfiguration(pdrs []pdr, allFARs []far, qers
 			tunnelPort:   FAR.tunnelPort,
 		}
 
+		// only a FAR that forwards needs its tunnel peer: one that buffers or drops may still name
+		// the tunnel it will use again (idle UE), but holds no reference on the peer meanwhile
 		tunnelPeerID, exists := up4.getGTPTunnelPeer(tunnelParameters)
-		if !exists && FAR.tunnelTEID != 0 {
+		if !exists && FAR.tunnelTEID != 0 && FAR.Forwards() {
 			return ErrNotFoundWithParam("allocated GTP tunnel peer ID", "tunnel params", tunnelParameters)
 		}
 
